@@ -37,8 +37,9 @@ class RandomChooser:
     """Uniform random scheduling with a pre-emption probability at line events and a time-jump
     probability (wake a sleeper although others are runnable)."""
 
-    def __init__(self, seed, p_preempt=0.1, p_jump=0.1, fair_time=False, jump_horizon_ms=50, p_stall=0.0):
+    def __init__(self, seed, p_preempt=0.1, p_jump=0.1, fair_time=False, jump_horizon_ms=50, p_stall=0.0, stall_on=('release',)):
         self.rng = random.Random(seed)
+        self.stall_on = tuple(stall_on)
         self.p_preempt = p_preempt
         # opt-in: a thread that has just released a lock is, with this probability, held back for a long stretch while the
         # others run (what a narrowed lock scope needs in order to show); `stall_on_release` adds the yield point at release
@@ -54,7 +55,7 @@ class RandomChooser:
         """runnable / sleepers: lists of threads in creation order. Returns the thread to run."""
         rng = self.rng
         if self.stall_on_release:
-            if reason == 'release' and me in runnable and len(runnable) > 1 and rng.random() < self.p_stall:
+            if reason in self.stall_on and me in runnable and len(runnable) > 1 and rng.random() < self.p_stall:
                 self.stalled[me.tid] = rng.randint(200, 3000)
             for tid in list(self.stalled):
                 self.stalled[tid] -= 1
@@ -864,11 +865,11 @@ class Installed:
 
 def run_scenario(scenario, broker_factory, seed=0, plan=None, chooser=None, trace_lines=True,
                  repo_path=None, max_steps=200000, p_preempt=0.1, p_jump=0.1, fair_time=False,
-                 trace_filter=None, real_timeout=30.0, jump_horizon_ms=50, p_stall=0.0):
+                 trace_filter=None, real_timeout=30.0, jump_horizon_ms=50, p_stall=0.0, stall_on=('release',)):
     """scenario(ctx) runs in the managed main thread.  ctx has .sched .net .spawn(fn,name) .join(t).
     Returns ctx after the run (ctx.main.exc holds an escaped exception)."""
     chooser = chooser or RandomChooser(seed, p_preempt=p_preempt, p_jump=p_jump, fair_time=fair_time,
-                                       jump_horizon_ms=jump_horizon_ms, p_stall=p_stall)
+                                       jump_horizon_ms=jump_horizon_ms, p_stall=p_stall, stall_on=stall_on)
     repo_path = repo_path or os.environ.get('VERIF_REPO', '/repo')
     sched = Scheduler(chooser, repo_path, trace_lines=trace_lines, max_steps=max_steps, trace_filter=trace_filter)
     net = Net(sched, broker_factory, plan)
